@@ -1093,6 +1093,8 @@ impl Compiler {
         let mut rest_param = None;
 
         for (idx, param) in params.iter().enumerate() {
+            // Binding a parameter can fail (destructuring `undefined`): locate it at the parameter
+            func_compiler.builder.set_span(param.span);
             let arg_reg = idx as u8;
 
             match &param.pattern {
@@ -2033,6 +2035,8 @@ impl Compiler {
         let mut param_properties: Vec<(JsString, u8, bool)> = Vec::new();
 
         for (idx, param) in ctor.params.iter().enumerate() {
+            // Binding a parameter can fail (destructuring `undefined`): locate it at the parameter
+            func_compiler.builder.set_span(param.span);
             let arg_reg = idx as u8;
 
             match &param.pattern {
